@@ -2,6 +2,7 @@ CONSTANTS Menu = "C05"
  MaxTail = 2
  Layouts = {"siblings"}
  AllPlants = FALSE
+ Lite = TRUE
  Flavours <- Flav_stateful
 INIT HInit
 NEXT HNext
